@@ -238,6 +238,10 @@ def parse_statement_line(ln):
         return ("throw", None, ln)
     if ln.startswith("return"):
         return ("return", ln[6:].rstrip(";").strip())
+    if re.match(r"^using\s+namespace\s+[\w:]+\s*;$", ln):
+        return ("using", ln)
+    if re.match(r"^(ANA_MSG_\w+|ATH_MSG_\w+)\s*\(.*\)\s*;$", ln) or re.match(r"^std::(cout|cerr|clog)\s*<<.*;$", ln):
+        return ("using", ln)       # logging: no effect on rows or on the job's outcome
     m = re.match(r"^ANA_CHECK\s*\((.*)\);$", ln)
     if m:
         return ("ana_check", parse_expr(m.group(1)))
@@ -313,8 +317,46 @@ def parse_block(lines, i=0):
             continue
         if ln == "else":
             raise CxxSyntaxError("else without if")
+        if ln == "try":
+            tb, i = parse_block(lines, i + 1)
+            handlers = []
+            while i < len(lines) and lines[i].startswith("catch"):
+                mm = re.match(r"^catch\s*\((.*)\)$", lines[i])
+                if not mm:
+                    raise CxxSyntaxError(f"catch clause not understood: {lines[i]!r}")
+                hb, i = parse_block(lines, i + 1)
+                handlers.append((mm.group(1).strip(), hb))
+            if not handlers:
+                raise CxxSyntaxError("try without catch")
+            body.append(("try", tb, handlers))
+            continue
         i += 1
         body.append(parse_statement_line(ln))
+
+
+def normalize_static(text):
+    "static template text -> stripped lines with every brace on a line of its own (outside string literals)"
+    out, cur = [], []
+    instr = False
+    prev = ""
+    for ch in text:
+        if ch == '"' and prev != "\\":
+            instr = not instr
+        if not instr and ch in "{}":
+            if "".join(cur).strip():
+                out.append("".join(cur).strip())
+            cur = []
+            out.append(ch)
+        elif ch == "\n" and not instr:
+            if "".join(cur).strip():
+                out.append("".join(cur).strip())
+            cur = []
+        else:
+            cur.append(ch)
+        prev = ch
+    if "".join(cur).strip():
+        out.append("".join(cur).strip())
+    return out
 
 
 def parse_code_lines(raw_lines):
